@@ -236,19 +236,11 @@ func check(s *sw.Sys) []seqx.Viol {
 		// (e) a stream without video never holds the consumer back (with merge-write the message may
 		// still sit in the merge buffer: C01 bounds that lag)
 		if !c.Left && !(c.Kind == "rtmp" && s.Merge > 0) {
-			hasVideoAtJoin := false
-			if c.JoinInc != 0 {
-				for i := 0; i < c.Join; i++ {
-					if P[i].Inc == c.JoinInc && (hdrClass(P[i].Kind) == "vsh" || isVideo(P[i].Kind)) {
-						hasVideoAtJoin = true
-					}
-				}
-			}
-			if !hasVideoAtJoin {
-				for i := c.Join; i < len(P); i++ {
-					if !sw.Forwardable(P[i]) {
-						continue
-					}
+			// videoSeen[inc]: publisher inc has sent a video sequence header or frame before message i
+			videoSeen := map[int]bool{}
+			for i := 0; i < len(P); i++ {
+				isV := hdrClass(P[i].Kind) == "vsh" || isVideo(P[i].Kind)
+				if i >= c.Join && !isV && !videoSeen[P[i].Inc] && sw.Forwardable(P[i]) {
 					found := false
 					for _, r := range R {
 						if r.Known && r.Idx == i {
@@ -256,14 +248,16 @@ func check(s *sw.Sys) []seqx.Viol {
 						}
 					}
 					if !found {
-						add("held-back-without-video", "joined a stream with no video (publisher %d), but the message %s was not delivered", c.JoinInc, P[i])
+						if P[i].Inc == c.JoinInc || c.JoinInc == 0 {
+							add("held-back-without-video", "joined a stream with no video (publisher %d), but the message %s was not delivered", c.JoinInc, P[i])
+						} else {
+							add("held-back-without-video-after-republish", "joined under publisher %d; publisher %d has sent no video, but its message %s was not delivered", c.JoinInc, P[i].Inc, P[i])
+						}
 						break
 					}
-					// every message counts for as long as the stream has no video: up to the first video
-					// sequence header or frame, or the end of this publisher
-					if i+1 < len(P) && (hdrClass(P[i+1].Kind) == "vsh" || isVideo(P[i+1].Kind) || P[i+1].Inc != P[i].Inc) {
-						break
-					}
+				}
+				if isV {
+					videoSeen[P[i].Inc] = true
 				}
 			}
 		}
@@ -376,6 +370,13 @@ func configs(r *vk.Run) []sw.SysOpts {
 			cs[len(cs)-1].Prefix = h
 			cs[len(cs)-1].MaxInc = 3
 		}
+	}
+	// consumers that joined mid-GOP and are still waiting for a key frame when their publisher leaves; the
+	// name is then re-published with other tracks (audio only: nothing may hold them back any longer)
+	for i, h := range [][]string{{"P:vsh", "P:key", "P:inter", "J:rtmp", "J:flv"}, {"P:vsh", "P:key", "P:inter", "J:ts", "J:rtmp"}, {"P:vsh", "P:ash", "P:key", "P:aac", "J:flv", "J:ts"}} {
+		add(fmt.Sprintf("gop0-waiting-across-republish%d", i), []string{"P:vsh", "P:key", "P:inter", "P:ash", "P:aac", "PubArrive", "PubLeave"}, true)
+		cs[len(cs)-1].Prefix = h
+		cs[len(cs)-1].MaxInc = 3
 	}
 	if !r.Quick() {
 		add("gop3", av, true, "rtmp.gop_num", 3, "httpflv.gop_num", 3, "httpts.gop_num", 2)
